@@ -123,7 +123,8 @@ CLAIMED = {
              "k < floor((xmax-xmin)/xdiv)+1, within [xmin,xmax]; the weight of an in-range point in bin k is the hat function "
              "max(0,1-|x-g_k|/xdiv) (so exactly the points within one bin width count); each bin is numerator/weight with both as sums "
              "over contributing points: linear in y, constants preserved, between min and max of contributing y, permutation invariant; "
-             "a point on node i gives weight 1 to node i, 0 to node i+1. Empty bins raise ZeroDivisionError in the code: theorems assume "
+             "a point on node i gives weight 1 to node i, 0 to node i+1, and data already on the grid (one point per returned node) come back unchanged "
+             "(P_rebin_on_grid; every bin then has weight exactly 1). Empty bins raise ZeroDivisionError in the code: theorems assume "
              "non-zero accumulated weight."
              " SECOND TIE: Pre_Proc.rebin is also regenerated on every run by tools/translate_stog.py (range/append loop, accumulator lists, indexed +=, "
              "in-place division loop) and proved equal to the hand model for xdiv>0 and equal lengths (Refine/Rebin.lean rebin_refines, by a per-bin invariant "
